@@ -333,6 +333,126 @@ theorem settings_revision_stable_if_reloaded {γ : Type} (dflt : γ × Nat) (s :
     (restartConf dflt reloaded).mem = reloaded.mem := by
   simp [cstep, restartConf]
 
+/-! ### the manager views in detail: root order, settings fields, volumes, index tip -/
+
+/-- `ORDER BY root_index` returns the contract's list, in order, whatever the physical order of the rows and
+whatever sector ids they point to -/
+theorem loadByIndex_correct (roots : List Nat) (rows : List RRow) (h : Represents roots rows) :
+    loadByIndex roots.length rows = roots.map some := by
+  apply List.ext_getElem?
+  intro i
+  simp only [loadByIndex, List.getElem?_map]
+  by_cases hi : i < roots.length
+  · simp [hi, h i hi]
+  · simp [hi]
+
+theorem loadByIndex_filterMap (roots : List Nat) (rows : List RRow) (h : Represents roots rows) :
+    (loadByIndex roots.length rows).filterMap id = roots := by
+  rw [loadByIndex_correct roots rows h]
+  induction roots with
+  | nil => rfl
+  | cons a rest ih => simp
+
+/-- **restart_observe (sector roots, row level).**  If the stored rows of every contract hold its list
+(index `i` ↦ `roots[i]`, C03), the manager rebuilt by the `ORDER BY root_index` queries serves, for every
+non-superseded contract, exactly the list — elements AND order — it served before the restart. -/
+theorem restart_observe_roots_ordered (ops : List ROp) (rrows : Nat → List RRow)
+    (hrep : ∀ c ∈ (reachRoots ops).rows, Represents c.roots (rrows c.id)) :
+    observeRoots { reachRoots ops with cache := rebuildRootsFrom rrows (reachRoots ops).rows } = observeRoots (reachRoots ops) := by
+  have hsame : rebuildRootsFrom rrows (reachRoots ops).rows = rebuildRoots (reachRoots ops).rows := by
+    simp only [rebuildRootsFrom, rebuildRoots]
+    apply List.map_congr_left
+    intro c hc
+    rw [loadByIndex_filterMap c.roots (rrows c.id) (hrep c hc)]
+  rw [hsame]
+  exact restart_observe_roots ops
+
+/-- … and the ORDER BY column matters: a contract holding `[7, 5]` whose second root was stored first
+(sector ids 9 and 2) is rebuilt as `[5, 7]` when the rows are ordered by `sector_id` -/
+example :
+    let rows : List RRow := [⟨0, 9, 7⟩, ⟨1, 2, 5⟩]
+    (loadByIndex 2 rows).filterMap id = [7, 5] ∧ loadBySector rows = [5, 7] := by decide
+
+example : Represents [7, 5] [⟨1, 2, 5⟩, ⟨0, 9, 7⟩] := by
+  intro i hi
+  have : i = 0 ∨ i = 1 := by simp at hi; omega
+  rcases this with rfl | rfl <;> simp [rootAt]
+
+/-- **restart_observe (settings / pinned settings, field by field).**  When every inserted column is also in
+the update list of the upsert, every field served from memory equals the stored one after any sequence of
+updates — so the rebuilt manager serves the same value for EVERY field. -/
+theorem restart_observe_fields (upd : Nat → Bool) (hupd : ∀ i, upd i = true) (dflt : Nat → Nat)
+    (vs : List (Nat → Nat)) (i : Nat) :
+    (frestart dflt (freach upd dflt vs)).mem i = (freach upd dflt vs).mem i := by
+  unfold freach
+  suffices ∀ s : FConf, (∀ i, (frestart dflt s).mem i = s.mem i) →
+      ∀ i, (frestart dflt (vs.foldl (fstep upd) s)).mem i = (vs.foldl (fstep upd) s).mem i from
+    this _ (fun _ => rfl) i
+  induction vs with
+  | nil => intro s h; exact h
+  | cons v rest ih =>
+    intro s _
+    apply ih
+    intro j
+    cases hr : s.row <;> simp [fstep, frestart, hr, hupd]
+
+/-- … and a column missing from the update list is lost: the first call inserts it, a later update that
+changes only that field stays in memory and is gone after a restart -/
+theorem restart_field_lost (upd : Nat → Bool) (j : Nat) (hj : upd j = false) (dflt : Nat → Nat) :
+    ∃ vs : List (Nat → Nat), (frestart dflt (freach upd dflt vs)).mem j ≠ (freach upd dflt vs).mem j :=
+  ⟨[fun _ => 0, fun i => if i = j then 1 else 0], by simp [freach, fstep, frestart, hj]⟩
+
+/-- the column lists of the current tree are complete (every inserted column is updated on conflict) -/
+theorem upsert_columns_complete :
+    (∀ i, updOf pinnedInsertCols pinnedUpdateCols i = true) ∧ (∀ i, updOf settingsInsertCols settingsUpdateCols i = true) := by
+  constructor <;> intro i
+  · by_cases h : i < 10
+    · have : i = 0 ∨ i = 1 ∨ i = 2 ∨ i = 3 ∨ i = 4 ∨ i = 5 ∨ i = 6 ∨ i = 7 ∨ i = 8 ∨ i = 9 := by omega
+      rcases this with rfl | rfl | rfl | rfl | rfl | rfl | rfl | rfl | rfl | rfl <;> decide
+    · have : pinnedInsertCols[i]? = none := by simp [pinnedInsertCols]; omega
+      simp [updOf, this]
+  · by_cases h : i < 23
+    · have hmem : ∀ c ∈ settingsInsertCols, settingsUpdateCols.contains c = true := by decide
+      simp only [updOf]
+      have hlt : i < settingsInsertCols.length := by simpa [settingsInsertCols] using h
+      rw [List.getElem?_eq_getElem hlt]
+      exact hmem _ (List.getElem_mem hlt)
+    · have : settingsInsertCols[i]? = none := by simp [settingsInsertCols]; omega
+      simp [updOf, this]
+
+/-- hence, for the tree's own column lists, every pinned-settings field and every settings field is restart-stable -/
+theorem restart_observe_pinned_fields (dflt : Nat → Nat) (vs : List (Nat → Nat)) (i : Nat) :
+    (frestart dflt (freach (updOf pinnedInsertCols pinnedUpdateCols) dflt vs)).mem i =
+      (freach (updOf pinnedInsertCols pinnedUpdateCols) dflt vs).mem i :=
+  restart_observe_fields _ upsert_columns_complete.1 dflt vs i
+
+theorem restart_observe_settings_fields (dflt : Nat → Nat) (vs : List (Nat → Nat)) (i : Nat) :
+    (frestart dflt (freach (updOf settingsInsertCols settingsUpdateCols) dflt vs)).mem i =
+      (freach (updOf settingsInsertCols settingsUpdateCols) dflt vs).mem i :=
+  restart_observe_fields _ upsert_columns_complete.2 dflt vs i
+
+/-- a list without `ingress_pinned` loses exactly that flag (field 4) -/
+example : updOf pinnedInsertCols (pinnedUpdateCols.filter (· ≠ "ingress_pinned")) 4 = false := by decide
+
+/-- **restart_observe (volumes).**  A volume is served as available exactly when its file opened; if that held
+before the restart (AddVolume / the previous loadVolumes) and the files are the same, it holds after. -/
+theorem restart_observe_volumes (vs : List Vol) (h : ∀ v ∈ vs, v.available = v.fileOk) :
+    observeVols (restartVols vs) = observeVols vs := by
+  simp only [observeVols, restartVols, List.map_map]
+  apply List.map_congr_left
+  intro v hv
+  simp [h v hv]
+
+end Restart
+
+/-- **restart_observe (index tip).**  With the in-memory tip equal to the persisted marker (the invariant
+`resume_invariant` of C09) a restart of the indexer changes nothing. -/
+theorem restart_observe_index {σ : Type} (delta : Nat → Nat → σ → σ) (s : Idx σ) (h : s.mem = s.marker) :
+    idxStep delta s .restart = s := by
+  cases s; simp_all [idxStep]
+
+namespace Restart
+
 /-! ### open_is_readonly -/
 
 /-- **open_is_readonly.**  `restart` leaves the persisted part of every engine
